@@ -10,7 +10,7 @@ MODEL = ["independent byte-per-entry GF(2) reference model (harness/ref.c) and r
          "judge and sharding in verif.py"]
 
 PROPS = {}
-HOOK_COMMITS = ["52a5a65"]
+HOOK_COMMITS = ["52a5a65", "53e2fd0"]
 NOT_APPLICABLE = []
 
 PROPS["C01"] = dict(
@@ -253,8 +253,8 @@ PROPS["C20"] = dict(
     rule="scenario = one op of the table (every multiplication route, elimination, factorisation, TRSM, inversion, solve, kernel, data movement, permutation "
          "application, observers) or one of: mzd_init, 140 x mzd_init_window, init/free churn, mzp init/copy/window, PNG write, PNG read, JCF read, from_str, "
          "DJB compile with growing arrays; a dry-run child counts the N allocation requests the library makes inside the scenario (interposer armed only there); "
-         "then for EVERY i = 1..N a fresh forked child runs the same scenario with request i returning NULL/ENOMEM; oracle: SIGABRT, a library diagnostic on stderr "
-         "('... returned NULL', 'malloc failed', 'realloc failed'), no sanitizer report, no SIGSEGV, no normal return, no hang; evaluations counts children; "
+         "then for EVERY i = 1..N a fresh forked child runs the same scenario with request i returning NULL/ENOMEM; oracle: SIGABRT, a diagnostic on stderr (any wording), "
+         "no sanitizer report, no SIGSEGV, no normal return, no hang; evaluations counts children; "
          "distinct = (build, scenario, number of requests bucket); non-trivial = scenario makes at least one allocation request",
     assumptions=["allocator interposer (ld --wrap on the library objects only) sees every allocation request of m4ri itself; libpng/libc internal allocations are not injected",
                  "a request satisfied from the library's own block cache is not an allocation request"],
